@@ -245,6 +245,7 @@ def byte_strings(draw):
 
 
 from props.ble_layers import C15_BLE_LAYERS  # noqa: E402
+from props.coap_layers import C15_COAP_LAYERS  # noqa: E402
 
 
 def fuzz_target(data, R):
@@ -284,6 +285,7 @@ SPEC = Property(
         Layer("bytes-adjacent-same-type", run_bytes, enumerate=enum_adjacent, exhaustive=True, space="6 types x lengths 0..2 x 0..2 of two adjacent equal-typed items, bare / followed / preceded by another item"),
         Layer("bytes-gen", run_bytes, strategy=byte_strings, n={"quick": 6000, "thorough": 200000}, min_nontrivial=500),
         *C15_BLE_LAYERS,
+        *C15_COAP_LAYERS,
         Layer("bytes-atheris", run_fuzz, enumerate=lambda tier: iter([{"corpus": "empty", "runs": 1000000}, {"corpus": "seeded", "runs": 1000000}]), tiers=("thorough",),
               space="two libFuzzer campaigns of 1M executions (empty corpus / corpus of valid encodings), oracle inside the target"),
     ],
